@@ -52,7 +52,7 @@ for _pid, _why in [
 ]:
     na(_pid, _why)
 
-prop("C02", ["sql_prec", "static_eval", "operator_tpl", "rel_names"],
+prop("C02", ["sql_prec", "static_eval", "operator_tpl", "rel_names", "lower_cols"],
      not_covered="evaluation inside the database; dialect templates beyond the strengths they declare; sites that build SQL operands "
                  "without translate_operand (process_concat, process_array_in, try_into_between) are not yet under contract")
 claim("C02",
@@ -91,8 +91,8 @@ def _c04_split(name):
             or lab == "SO1.Take.Compute" or lab.endswith(".safety"))
 
 
-prop("C04", ["window_frame", "split_order"], select={"split_order": _c04_split},
-     not_covered="that partition/sort reach Compute.window (lowering), row-count preservation, create_filter_by_row_number")
+prop("C04", ["window_frame", "split_order", "lower_cols"], select={"split_order": _c04_split, "lower_cols": lambda n: n.split(".", 1)[1] in ("DC5", "DC6") or n.endswith(".safety")},
+     not_covered="how Lowerer.window is set from partition / sort / frame (lower_pipeline over the flattened transforms), row-count preservation, create_filter_by_row_number")
 claim("C04",
       "PARTIAL. Proved on the real code, for all inputs: the window transform maps expanding / rolling:n / rows / range to exactly the documented "
       "(kind, start, end) with rolling:n = rows:(1-n)..0 and no overflow (WF1a-e); bound sign -> n PRECEDING / CURRENT ROW / n FOLLOWING, open "
@@ -100,7 +100,8 @@ claim("C04",
       "the requested bounds (WF3b); the Flattener applies a window's frame to its inner pipeline only - upstream transforms are folded with the "
       "frame in effect on entry (FL1-3); a windowed compute has complexity Windowed and is never inlined where a requirement allows less, a filter "
       "never shares a SELECT with a preceding compute unless it is a HAVING, and reorder() never hoists a windowed compute over a take "
-      "(split_order IC1, CM1, SO1c, RO1). NOT proved: partition/sort wiring through lowering, row-count preservation.",
+      "(split_order IC1, CM1, SO1c, RO1); an expression that needs a window always becomes a Compute of its own carrying the Lowerer's current window, and an "
+      "expression that does not carries none (lower_cols DC5-6). NOT proved: how the current window is computed from partition / sort / frame, row-count preservation.",
       "Flattener::fold_expr is external (ghost log of (expression, frame in effect)); slices drop the rest of resolve_special_func / "
       "translate_windowed; unpack_as_int_literal and sqlparser value construction are trusted by contract.")
 
@@ -177,14 +178,16 @@ def _c16_ids(name):
     return lab in ("IG1", "IG2", "IG3", "SK1") or lab.startswith("gen.") or lab.startswith("skip.") or lab.endswith("IdGenerator::gen.safety") or "skip" in lab
 
 
-prop("C16", ["toposort", "rq_tables", "ids_names"], select={"ids_names": _c16_ids},
-     not_covered="visibility of ids across joins / sub-pipelines (redirect_mappings over node_mapping: HashMap<usize, LoweredTarget>), declare_as_column, "
+prop("C16", ["toposort", "rq_tables", "ids_names", "lower_cols"], select={"ids_names": _c16_ids},
+     not_covered="visibility of ids across joins / sub-pipelines (redirect_mappings over node_mapping: HashMap<usize, LoweredTarget>), lower_expr, "
                  "push_select, create_a_table_instance; toposort()'s Key->index map and driver loop")
 claim("C16",
       "PARTIAL. Proved on the real code: Toposort::visit (the recursive DFS, verbatim) terminates, never panics, and on success keeps the invariant "
       "'every dependency of a listed node is listed EARLIER' while only appending to the order (TS0-TS4) - the 'declared earlier in the table list' "
       "clause for the order toposort_tables uses; lower_to_ir emits exactly the lowering buffer, in that order (RT1, RT2); column / table ids are "
-      "handed out strictly increasing and above every loaded id, so no id is defined twice by the generators (IG1-3, SK1). NOT proved: visibility of "
+      "handed out strictly increasing and above every loaded id, so no id is defined twice by the generators (IG1-3, SK1); declare_as_column (verbatim) returns the "
+      "recorded column for an expression lowered before and emits nothing, otherwise appends at most ONE Compute, whose id is the generator's next (fresh) id, and "
+      "records the node -> column mapping (lower_cols DC1-4). NOT proved: visibility of "
       "every used id at its point of use (cid redirection through hash maps), select arity.",
       "toposort()'s HashMap index / outer loop, lower_table_decl and the Lowerer's node_mapping are not under contract.")
 
@@ -207,7 +210,7 @@ def _safety(name):
 
 
 _ALL_UNITS = ["take_range", "sort_take", "split_order", "window_frame", "dialect_select", "ident_quote", "ids_names", "toposort", "rq_tables",
-              "select_shape", "span_units", "sql_prec", "prql_prec", "literals", "set_ops", "desugar", "resolve_guards", "lex_strings", "limit_clause", "static_eval", "operator_tpl", "rel_names"]
+              "select_shape", "span_units", "sql_prec", "prql_prec", "literals", "set_ops", "desugar", "resolve_guards", "lex_strings", "limit_clause", "static_eval", "operator_tpl", "rel_names", "lower_cols"]
 prop("C12", _ALL_UNITS, select={u: _safety for u in _ALL_UNITS},
      not_covered="every function that is not under contract (~150 unwrap/expect sites, todo!() in type_intersection, panic!(cannot find cid) in lookup_cid), "
                  "recursion depth, chumsky, time bounds")
